@@ -163,6 +163,19 @@ def _init_only(callee, ev, path):
     return callee.name == "__init__" and callee.owner is not None and callee.owner.name in ("MapFuture", "FlatMapFuture")
 
 
+def flatten_rule(ctx, rep):
+    """shared with C01: the flat-map layer hands on the returned future's own outcome -- the user's functions are
+    disarmed before the layer starts following that future"""
+    from ..roles import registered_callbacks, map_roles
+    M = MR[0] = map_roles(ctx)
+    cbs = [m for m, recv in registered_callbacks(ctx, M.mf).values() if recv != ("param", "self")]
+    rep.require(len(cbs) == 1, "MapFuture: expected exactly one callback registered on the delegate")
+    CBNAME[0] = cbs[0].name
+    if "R-TABLE" not in rep.rules:
+        rep.rule("R-TABLE", "flat-map stage transition: the future returned by the user's function becomes the delegate, and the map / error functions are neutralised before the resolution callback is registered on it")
+    _stage2_entry(ctx, rep, M.fmf, cbs[0])
+
+
 def _stage2_entry(ctx, rep, ci, cb):
     """field state left by the flatten transition of stage 1 = entry state of stage 2.  Found on the paths of the
     resolution callback (stage-1 entry state) that register the callback again on the value returned by the user's
